@@ -546,13 +546,17 @@ impl<S: BitmapSlice + Send + Sync> FileSystem for PassthroughFs<S> {
     }
 
     fn forget(&self, _ctx: &Context, inode: Inode, count: u64) {
+        verif_yield!("F_wlock");
         let mut inodes = self.inode_map.get_map_mut();
+        verif_yield!("F_locked");
 
         self.forget_one(&mut inodes, inode, count)
     }
 
     fn batch_forget(&self, _ctx: &Context, requests: Vec<(Inode, u64)>) {
+        verif_yield!("F_wlock");
         let mut inodes = self.inode_map.get_map_mut();
+        verif_yield!("F_locked");
 
         for (inode, count) in requests {
             self.forget_one(&mut inodes, inode, count)
